@@ -4,6 +4,7 @@ package main
 
 import (
 	"fmt"
+	"runtime"
 
 	"github.com/willabides/rjson"
 )
@@ -50,6 +51,25 @@ type ytask struct {
 	// variable, and (quantum == -2) how many more of those to run before parking
 	sharedYields int
 	sharedLeft   int
+	goid         uint64 // the goroutine that IS this task; only it may be parked by a yield
+}
+
+// curGoid returns the id of the calling goroutine (parsed from the header line of its stack trace).
+// Only used at the moment a task is about to be parked: a goroutine that the library itself started
+// (should a tree ever do that) runs through the same yield sites as the task that spawned it, and
+// parking it in the task's place would hand the scheduler a goroutine it does not own.
+func curGoid() uint64 {
+	var buf [64]byte
+	n := runtime.Stack(buf[:], false)
+	// "goroutine 123 [running]:"
+	var id uint64
+	for _, c := range buf[len("goroutine "):n] {
+		if c < '0' || c > '9' {
+			break
+		}
+		id = id*10 + uint64(c-'0')
+	}
+	return id
 }
 
 // sharedSite[i]: yield site i lies in a function that mentions a package-level variable some
@@ -70,6 +90,7 @@ type ysched struct {
 	yields   int
 	lastSite int
 	harness  interface{}
+	foreign  int // yields made by goroutines that are not tasks
 }
 
 func (s *ysched) yield(site int) {
@@ -83,7 +104,7 @@ func (s *ysched) yield(site int) {
 		t.sharedYields++
 		if t.quantum == -2 {
 			t.sharedLeft--
-			if t.sharedLeft <= 0 {
+			if t.sharedLeft <= 0 && curGoid() == t.goid {
 				t.quantum = -1
 				s.lastSite = site
 				s.yielded <- struct{}{}
@@ -97,6 +118,10 @@ func (s *ysched) yield(site int) {
 	}
 	t.quantum--
 	if t.quantum > 0 {
+		return
+	}
+	if curGoid() != t.goid {
+		s.foreign++ // a goroutine started inside the library: it is not the scheduler's to park
 		return
 	}
 	s.lastSite = site
@@ -114,6 +139,7 @@ func runInterleaved(sc *Scenario, st *Stats, tape *Tape, docs [][]byte) ([][]Out
 		t := &ytask{id: ti, run: make(chan struct{})}
 		tasks[ti] = t
 		go func(t *ytask, ops []Op) {
+			t.goid = curGoid()
 			<-t.run
 			defer func() {
 				if r := recover(); r != nil {
